@@ -487,6 +487,7 @@ def install_exit_with_root(v, S):
         Gs_of(eng, st, eng.fresh("X_last", z3.RealSort()))
         eng.write(st, eng.local_ptr(st, "converged"), z3.IntVal(0))
         S.cap["mark"] = len(eng.obligations)
+        S.cap["pcmark"] = len(st.pc)
         S.cap["exit"] = what + "-failed"
 
     def quartic(eng, st, n, cond, inc, body):
@@ -549,6 +550,74 @@ def install_exit_with_root(v, S):
         walk(fn)
         return best[0]
 
+    def bracket_contract(eng, st):
+        """Entry contract of the bisection loop (the 'hyperbolic bracket' of the property).  The universal variable is
+        X = integral of dt/r along the orbit, so X lies between dt/r_max and dt/r_min for every distance bound
+        r_min <= r <= r_max reachable within the step.  Hyperbolic branch: r_min = q (pericentre distance) and
+        r_max = r0 + w*|dt| with w = sqrt(h2)/q the pericentre speed (the largest speed on the orbit); the bracket
+        must be these two values, in increasing order, for both signs of dt.  Elliptic branch: one X-period wide.
+        The obligation is over the values the real code has stored in X_min, X_max, q and vq at loop entry."""
+        c = S.cap
+        Xmin, Xmax = eng.local(st, "X_min"), eng.local(st, "X_max")
+        dt, r0, beta = c["_dt"], c["r0"], c["beta"]
+        tn = v.task.name
+        try:
+            q, vq = eng.local(st, "q"), eng.local(st, "vq")
+        except KeyError:
+            # no q/vq on this path: only legitimate when the elliptic branch was taken
+            eng.oblige(st, tn + ".bisection.bracket.hyperbolic_locals_present", beta > 0)
+            xpp = eng.local(st, "X_per_period")
+            eng.oblige(st, tn + ".bisection.bracket.elliptic_one_period_wide", Xmax - Xmin == xpp)
+            return
+        w = z3.If(vq >= 0, vq, -vq)
+        adt = z3.If(dt >= 0, dt, -dt)
+        far, near = r0 + w * adt, q
+        h2 = r0 * r0 * c["v2"] - c["eta0"] * c["eta0"]
+        M_ = c["M"]
+        # side facts, proved against the full path condition (raw coordinates)
+        eng.oblige(st, tn + ".bisection.bracket.side.r0_positive", r0 > 0)
+        eng.oblige(st, tn + ".bisection.bracket.side.h2_positive", h2 > 0)
+        # The bracket obligations are proved in generalised form: the code's values of beta, r0, v2, eta0 (large
+        # polynomials in the raw coordinates) are replaced by fresh reals B, R0, V2, E0 constrained only by the side
+        # facts above, and the hypotheses are the facts the path condition gained in the bracket stretch (sqrt axioms,
+        # assumed definedness of that stretch).  Validity of the generalisation implies the instance.
+        B, R0, V2, E0 = (z3.Real(n_) for n_ in ("B_", "R0_", "V2_", "E0_"))
+
+        def gen(t):
+            t = z3.substitute(t, (beta, B))
+            return z3.substitute(t, (r0, R0), (c["v2"], V2), (c["eta0"], E0))
+
+        def raw(t):
+            return "pj." in str(t)
+        eng.oblige(st, tn + ".bisection.bracket.side.beta_is_2M_over_r0_minus_v2", beta * r0 == 2 * M_ - c["v2"] * r0)
+        base = [M_ > 0, R0 > 0, R0 * R0 * V2 - E0 * E0 > 0, z3.Not(B > 0), B * R0 == 2 * M_ - V2 * R0]
+        stretch = [gen(h) for h in st.pc[S.cap.get("pcmark", len(st.pc)):]]
+        hyps = base + [h for h in stretch if not raw(h)]
+
+        def lemma(name, goal, drop=(), extra=()):
+            from engine.csym import Obligation
+            g = gen(goal)
+            if raw(g):          # generalisation did not cover the goal: fall back to the instance
+                eng.oblige(st, tn + ".bisection.bracket." + name, z3.Implies(z3.Not(beta > 0), goal))
+                return
+            ob = Obligation(eng.prefix + tn + ".bisection.bracket." + name,
+                            [h for k, h in enumerate(hyps) if k not in drop] + [gen(e) for e in extra], g, "post")
+            ob.meta["order"] = ("z3", "cvc5")
+            ob.meta["ctx"] = v
+            eng.obligations.append(ob)
+        lemma("hyperbolic_is_dt_over_rmax_and_dt_over_rmin",
+              z3.And(q > 0, far > 0,
+                     z3.If(dt >= 0,
+                           z3.And(Xmin * far == dt, Xmax * near == dt),
+                           z3.And(Xmax * far == dt, Xmin * near == dt))))
+        # the body is never inside the pericentre distance (uses the definition of beta); the order follows from it
+        lemma("r0_at_least_pericentre_distance", r0 >= q)
+        lemma("ordered", Xmin <= Xmax, drop=(4,), extra=(r0 >= q, q > 0))
+        # q is the pericentre distance h2/(M(1+e)), e^2 = 1 - h2*beta/M^2, and w the pericentre speed sqrt(h2)/q
+        lemma("q_is_pericentre_distance",
+              z3.And(h2 >= M_ * q, (h2 - M_ * q) * (h2 - M_ * q) == q * q * (M_ * M_ - h2 * beta)))
+        lemma("w_is_pericentre_speed", w * w * q * q == h2, drop=(4,))        # holds for any beta <= 0
+
     def bisection(eng, st, n, cond, inc, body):
         # definedness of the bracket computation (between `if (converged == 0)` and the do-loop): not decided
         lo, hi = enclosing_if_line(eng, n), n.get("_line")
@@ -557,6 +626,7 @@ def install_exit_with_root(v, S):
                 if not (ob.kind == "def" and ob.where is not None and lo is not None and lo < ob.where < hi)]
         S.cap["dropped"] = len(eng.obligations) - m - len(kept)
         eng.obligations[m:] = kept
+        bracket_contract(eng, st)
         mods = eng.loop_modifies(st, n, cond, inc, body, eng.loopspecs[(SOLVER, 3)])
         eng.havoc(st, mods, "bisect")
         X = eng.local(st, "X")
@@ -565,6 +635,7 @@ def install_exit_with_root(v, S):
         st.assume(S.cap["root"])
         S.cap["exit"] += "+bisection"
         return NORMAL
+    v.eng.fork_ifs_declaring = {"vq"}          # keep q, vq readable for bracket_contract
     v.loop(SOLVER, 0, invariant=quartic, mode="custom")
     v.loop(SOLVER, 2, invariant=newton, mode="custom")
     v.loop(SOLVER, 3, invariant=bisection, mode="custom")
